@@ -2,3 +2,6 @@ import HdModel.Model.Util
 import HdModel.Model.Dns
 import HdModel.Spec.Dns
 import HdModel.Model.DnsDriver
+import HdModel.Model.Sni
+import HdModel.Spec.Sni
+import HdModel.Model.SniDriver
